@@ -9,10 +9,27 @@ use std::sync::{Arc, Mutex};
 use crate::exec::Real;
 use crate::util::fnv64;
 
+/// what the *specification* (not the model) says a line must output, with the tags used to match
+/// known findings
 #[derive(Clone, Debug)]
+pub struct Expect {
+    pub out: String,
+    pub oracle: String,
+    pub tags: Vec<String>,
+}
+
+#[derive(Clone, Debug, Default)]
 pub struct Case {
     pub name: String,
     pub lines: Vec<String>,
+    /// sparse: (line index, expectation)
+    pub expect: Vec<(usize, Expect)>,
+}
+
+impl Case {
+    pub fn new(name: String, lines: Vec<String>) -> Self {
+        Self { name, lines, expect: vec![] }
+    }
 }
 
 #[derive(Clone, Debug)]
@@ -159,6 +176,9 @@ pub struct Outcome {
     pub stats: Stats,
     pub mismatches: Vec<Mismatch>,
     pub samples: Vec<serde_json::Value>,
+    /// implementation output differs from what the specification demands
+    pub oracle_failures: Vec<serde_json::Value>,
+    pub oracle_checked: usize,
 }
 
 /// run all cases on both sides with `workers` threads on the implementation side
@@ -197,6 +217,8 @@ pub fn run_cases(driver: &str, cases: Vec<Case>, workers: usize, max_shrink: usi
     let mut stats = Stats::default();
     let mut mismatches = vec![];
     let mut samples = vec![];
+    let mut oracle_failures = vec![];
+    let mut oracle_checked = 0usize;
     let mut off = 0;
     for (ci, c) in cases.iter().enumerate() {
         let imp = results[ci].as_ref().unwrap();
@@ -239,6 +261,19 @@ pub fn run_cases(driver: &str, cases: Vec<Case>, workers: usize, max_shrink: usi
                 "impl_last": imp.last(),
             }));
         }
+        for (k, ex) in &c.expect {
+            oracle_checked += 1;
+            let got = imp.get(*k).cloned().unwrap_or_default();
+            if normalize(&got) != normalize(&ex.out) && oracle_failures.len() < 50 {
+                let mut tags = ex.tags.clone();
+                tags.push(if got.starts_with("ok") { "accepted".into() } else if got.starts_with("panic") { "panic".into() } else { "rejected".into() });
+                oracle_failures.push(serde_json::json!({
+                    "kind": "impl-oracle", "oracle": ex.oracle, "tags": tags,
+                    "what": format!("{}: implementation `{}` but the specification demands `{}`", c.lines[*k].split(' ').next().unwrap_or(""), got.chars().take(120).collect::<String>(), ex.out.chars().take(120).collect::<String>()),
+                    "lines": c.lines[..=*k].to_vec(), "impl": got, "spec": ex.out, "line_no": k, "case": c.name,
+                }));
+            }
+        }
         if let Some((k, kind)) = first_mismatch(&c.lines, imp, &model) {
             let mut mm = Mismatch {
                 case: c.name.clone(),
@@ -267,10 +302,12 @@ pub fn run_cases(driver: &str, cases: Vec<Case>, workers: usize, max_shrink: usi
             mismatches.push(mm);
         }
     }
-    Outcome { stats, mismatches, samples }
+    Outcome { stats, mismatches, samples, oracle_failures, oracle_checked }
 }
 
-pub fn outcome_json(prop: &str, tier: &str, seed: u64, o: &Outcome, extra: serde_json::Value) -> serde_json::Value {
+pub fn outcome_json(prop: &str, tier: &str, seed: u64, o: &Outcome, mut extra: serde_json::Value) -> serde_json::Value {
+    extra["oracle_failures"] = serde_json::json!(o.oracle_failures);
+    extra["oracle_checked"] = serde_json::json!(o.oracle_checked);
     serde_json::json!({
         "property": prop,
         "tier": tier,
